@@ -196,7 +196,7 @@ class RelativeEntropy(E2Contract):
     def configs(self, tier):
         out = [("identity", 2, 2), ("identity", 2, 3), ("custom", 2, 2), ("custom", 2, 3)]
         if tier == "thorough":
-            out += [("identity", 3, 4), ("custom", 2, 5)]
+            out += [("identity", 2, 4), ("custom", 2, 4)]      # (3 schedules x 3+ outcomes, 5 outcomes: single-fraction normal form out of budget)
         return out
 
     def inputs(self, W, cfg, mk):
